@@ -17,6 +17,7 @@ import (
 
 func init() {
 	extraEngines["C06"] = append(extraEngines["C06"], func(w *World, r *Report) []*Obligation { return schematic(w, r, "C06") })
+	extraEngines["C05"] = append(extraEngines["C05"], func(w *World, r *Report) []*Obligation { return schematic(w, r, "C05") })
 	extraEngines["C02"] = append(extraEngines["C02"], func(w *World, r *Report) []*Obligation { return schematic(w, r, "C02") })
 	extraEngines["C01"] = append(extraEngines["C01"], func(w *World, r *Report) []*Obligation { return schematic(w, r, "C01") })
 }
@@ -46,6 +47,7 @@ func (w *World) sweepLint(li *LintInfo, prop string) (res sweepResult) {
 	heap := u.newHeap(&Link{kind: "entry"})
 	u.scalar("$top", "Int")
 	top0 := u.hget(heap, "$top")
+	u.top0 = top0
 	ex := u.newFrame(li.Execute, nil, 0)
 	ex.top = true
 	ex.fname = fname
@@ -62,11 +64,23 @@ func (w *World) sweepLint(li *LintInfo, prop string) (res sweepResult) {
 			u.emit("(assert (not (= " + x + " 0)))")
 		}
 	}
+	if prop == "C05" {
+		// write frame of a lint call: memory allocated during the call, and the lint's own
+		// (freshly constructed) instance; nothing reachable from the linted object, no globals
+		fs := &frameSpec{top0: top0}
+		if len(args) > 0 {
+			if _, ok := args[0].Typ.Underlying().(*types.Pointer); ok {
+				fs.locs = append(fs.locs, &Loc{Arr: "", Key: args[0].T, Typ: args[0].Typ})
+			}
+		}
+		ex.frame = fs
+	}
 	st := &state{cur: "true", heap: heap}
 	// Execute runs only after CheckApplies returned true on the same instance and object
 	if ca := li.CheckApplies; ca != nil && ca.Blocks != nil && len(ca.Params) == len(args) {
 		g := u.newFrame(ca, nil, 1)
 		g.fname = fname
+		g.frame = ex.frame
 		for i, p := range ca.Params {
 			g.vals[p] = args[i]
 		}
@@ -146,11 +160,23 @@ func (w *World) sweepLint(li *LintInfo, prop string) (res sweepResult) {
 	if prop == "C02" {
 		res.obls = append(res.obls, u.obls...)
 	}
+	if prop == "C05" {
+		for _, o := range u.obls {
+			if o.Kind == "frame" {
+				res.obls = append(res.obls, o)
+			}
+		}
+	}
 	// one shared group per kind, ordinal = lint name: obligations of lints added later fall
 	// into a claimed group (the properties quantify over present and future lints)
 	cnt := map[string]int{}
 	for _, o := range res.obls {
 		cnt[o.Kind]++
+		if prop == "C05" {
+			o.Name = fmt.Sprintf("C05/lint:%s/frame#%d", li.Name, cnt[o.Kind])
+			o.Func = "lint:" + li.Name
+			continue
+		}
 		if prop == "C02" {
 			// panic-freedom is claimed lint by lint (a lint is claimed when all its safety
 			// obligations discharge on the unchanged tree)
@@ -202,7 +228,7 @@ func schematic(w *World, r *Report, prop string) []*Obligation {
 		}
 	}
 	to := r.Timeout
-	if prop == "C02" && r.Tier != "thorough" && to > 4 {
+	if (prop == "C02" || prop == "C05") && r.Tier != "thorough" && to > 4 {
 		to = 4 // the sweep claims only what discharges quickly
 	}
 	SolveAll(toSolve, r.QDir, to, r.Tier == "thorough", 10)
